@@ -58,8 +58,23 @@ def circum(a, b, c):
     return np.array([ux, uy])
 
 
+_REF_CACHE = {}
+
+
 def reference(pts, shift, pad=3):
-    """independent periodic Delaunay: vertices in (0,1], edges with cell offsets, largest relevant circumradius"""
+    """independent periodic Delaunay (memoised on the point set): vertices in (0,1], edges with cell offsets, largest relevant circumradius"""
+    key = (np.asarray(pts, dtype=float).tobytes(), bool(shift), pad)
+    if key in _REF_CACHE:
+        out, reference.window_ok = _REF_CACHE[key]
+        return out
+    if len(_REF_CACHE) > 64:
+        _REF_CACHE.clear()
+    out = _reference(pts, shift, pad)
+    _REF_CACHE[key] = (out, reference.window_ok)
+    return out
+
+
+def _reference(pts, shift, pad=3):
     N = len(pts)
     offs = [(i, j) for i in range(-pad, pad + 1) for j in range(-pad, pad + 1)]
     allp = np.concatenate([pts + np.array(o) for o in offs]); owner = [(k, o) for o in offs for k in range(N)]
@@ -122,6 +137,16 @@ def families(rng, N):
         yield "band", b
 
 
+def cocircular_margin(pts):
+    """smallest distance between two vertices of the periodic Voronoi diagram of pts (circumcentres of the periodic Delaunay triangles in the cell)"""
+    from scipy.spatial import cKDTree
+    verts = reference(pts, False)[0]
+    if len(verts) < 2:
+        return 1.0
+    dd, _ = cKDTree(verts).query(verts, k=2)
+    return float(dd[:, 1].min())
+
+
 def judge(ctx, name, pts, shift, l, rep):
     """the statement, against the independent reference; returns False if excluded or violated"""
     N = len(pts)
@@ -132,13 +157,11 @@ def judge(ctx, name, pts, shift, l, rep):
         ctx.count("beyond_the_sufficient_density_bound_but_window_exact")
     if wall < 1e-12:          # circumcentres of well-shaped triangles are accurate to ~1e-15; closer to the wall than this the cell membership is a matter of rounding
         ctx.count("precondition_excluded_vertex_on_cell_wall"); return None
-    if len(verts) > 1:
-        # genericity margin: two Voronoi vertices closer than 1e-9 come from four seeds that are co-circular within rounding - which of the two triangulations
-        # qhull reports (or whether it merges them) is then a matter of its own tolerances, and the statement excludes co-circular seeds
-        from scipy.spatial import cKDTree
-        dd, _ = cKDTree(verts).query(verts, k=2)
-        if float(dd[:, 1].min()) < 1e-9:
-            ctx.count("precondition_excluded_cocircular_within_1e-9"); return None
+    # genericity margin: two Voronoi vertices (circumcentres, whatever the shift setting) closer than 1e-9 come from four seeds that are co-circular within
+    # rounding - which of the two triangulations qhull reports (or whether it merges them) is then a matter of its own tolerances, and the statement excludes
+    # co-circular seeds
+    if cocircular_margin(pts) < 1e-9:
+        ctx.count("precondition_excluded_cocircular_within_1e-9"); return None
     if l.n_vertices != len(verts):
         rep(f"{l.n_vertices} vertices, the periodic Voronoi diagram has {len(verts)}"); return False
     d = np.linalg.norm(l.vertices.positions[:, None] - verts[None], axis=-1); m = d.argmin(1)
@@ -229,10 +252,12 @@ def run(ctx):
                             l, vor = generate_recorded(pts, shift)
                     except Exception as ex:
                         verts, edges, rmax, ok, wall = reference(pts, shift)
-                        if rmax <= (1 / 3 if N > 10 else 2 / 3) and ok:
-                            rep(f"generate_lattice raised {type(ex).__name__}: {ex}")
-                        else:
+                        if not (rmax <= (1 / 3 if N > 10 else 2 / 3) and ok):
                             ctx.count("precondition_excluded_density")
+                        elif cocircular_margin(pts) < 1e-9:
+                            ctx.count("precondition_excluded_cocircular_within_1e-9")
+                        else:
+                            rep(f"generate_lattice raised {type(ex).__name__}: {ex}")
                         continue
                     verdict = judge(ctx, name, pts, shift, l, rep)
                     if verdict is None:
